@@ -137,7 +137,13 @@ def sig_c16(c, clause):
 
 
 def run_c16(ctx, fa):
+    from . import mcheck
     rnd = ctx.sub_rnd("c16")
+    # M: the calendar on a window of days (quick: around the epoch and both ends; thorough: every day from 0001-01-01 to 9999-12-31)
+    last = 2932896 + 719162
+    windows = [(0, 800), (719162 - 400, 719162 + 1500), (last - 800, last)] if ctx.quick() else [(0, last)]
+    for a, b in windows:
+        mcheck.model_check(ctx, "MC_Logical", {"FromOff": a, "ToOff": b}, ["InvInverse", "InvValid", "InvSuccessor", "InvTwos", "InvEpoch"], "days%d" % a)
     n = 1500 if ctx.quick() else 20000
     vals = gen_values(rnd, n, not ctx.quick())
     cases = [logical_case(fa, "l%d" % i, s, v) for i, (s, v) in enumerate(vals)]
